@@ -232,6 +232,14 @@ def corr_invlinks(ctx):
         for i in range(ctx.budget(150, 1500, 1500)):
             c = gen_invlink_case(rng)
             link = c["links"][rng.randrange(len(c["links"]))]
+            if c["entries"] and rng.random() < 0.7:
+                # mostly-valid stream: derive the link from an existing entry so that one / several entries match
+                e = rng.choice(c["entries"])
+                link = [rng.choice(["k", "*", None]), None, None, rng.choice([e[2].replace("*", "\\*"), e[2][:1] + "*", "*"])]
+                if link[0] is not None and rng.random() < 0.7:
+                    link[1] = rng.choice([e[0], "*", e[0][:1] + "*"])
+                    if rng.random() < 0.7:
+                        link[2] = rng.choice([e[1], "*", e[1][:1] + "*"])
             pi, pd, po, pt = link
             explicit = rng.random() < 0.5
             base = rng.choice(["https://e.org/base", "https://e.org/base/", "", "rel", "/abs/"])
